@@ -52,7 +52,7 @@ def solve(constraints, timeout_ms=120000):
 
 def is_bytes_regexes(inc, exc):
     for r in list(inc) + list(exc):
-        return isinstance(r, bytes)
+        return isinstance(r[0] if isinstance(r, tuple) else r, bytes)
     return False
 
 
@@ -78,12 +78,16 @@ class Pair:
         return r, (self.sym.eval(m) if m is not None else None), dt
 
 
+def _rc(r):
+    return re.compile(r[0], r[1] & ~re.U if isinstance(r[0], bytes) else r[1]) if isinstance(r, tuple) else re.compile(r)
+
+
 def concrete_match(inc, exc, name):
     if not name:
         return False
-    if not any(re.compile(r).fullmatch(name) for r in inc):
+    if not any(_rc(r).fullmatch(name) for r in inc):
         return False
-    return not any(re.compile(r).fullmatch(name) for r in exc)
+    return not any(_rc(r).fullmatch(name) for r in exc)
 
 
 def validate_encoder(inc, exc, N, rnd, alphabet, n=25, is_bytes=False):
